@@ -17,6 +17,8 @@ INVARIANTS
     NoOrphanAssociation
     TemplateAllOrNone
     DerivedFromScript
+    FailedRequestLeavesNoTrace
+    TemplateTaskList
 CONSTRAINT HW
 POSTCONDITION Accepted
 CHECK_DEADLOCK FALSE
